@@ -16,6 +16,28 @@ CHECKS = {
             'inverse(forward(x)) is compared with the recorded x on the original extent for all wavelets, '
             'modes, J and hostile sizes; tolerance tied to PyWavelets own round-trip error for '
             'approximately-PR wavelets. Impulse batches give S*A=I on the signal extent per cell.', '5/C02'),
+    'C03': ('differential runtime monitor vs the NumPy dtcwt forward on impulse batches + taint-certified linearity',
+            'Every observed DTCWTForward call (20 filter pairs, J<=5, odd / non-multiple-of-4 / tiny / non-square '
+            'sizes) is compared per slice with dtcwt.Transform2d.forward: pyramid shapes exactly, lowpass and six '
+            'complex subbands per level to 1e-11 relative; impulse batches + the dispatch-level linearity '
+            'certificate generalise per cell.', '5/C03'),
+    'C04': ('round-trip runtime monitor DTCWTInverse(DTCWTForward(x)) on impulse batches and dense inputs',
+            'The inverse is fed the observed forward output; result shape (H+H%2, W+W%2) and the top-left HxW '
+            'corner equal to the recorded input, for 20 filter pairs, J<=5, hostile sizes.', '5/C04'),
+    'C11': ('differential runtime monitor vs the NumPy dtcwt inverse on arbitrary pyramids; absent-entry metamorphic monitor',
+            'DTCWTInverse on dense and one-hot (plus dense background: reference quirk, see DESIGN) pyramids shaped '
+            'by the reference forward is compared with dtcwt.Transform2d.inverse; every absent subset of '
+            '{lowpass, levels} in three encodings is compared with explicit zeros. Three mechanisms are open '
+            'known findings keyed by shape/encoding predicates.', '5/C11'),
+    'C12': ('metamorphic runtime monitors: layout permutation, same-layout round trip, skip/include masks, prefix consistency',
+            'All 120 (o_dim, ri_dim) pairs in -6..5 (every run), skip/include masks (all for J<=3 in thorough) and '
+            'prefix consistency are checked against the default-layout transform observed in the same run at a '
+            'rounding-level bound (bit identity counted); the inverse with the same layout must reconstruct.', '5/C12'),
+    'C18': ('icontract postconditions on the table loaders (every observed load) + cache monitor; exhaustive over tables x loaders x cache state x threads',
+            'Contracts on biort/level1/qshift judge every load observed (direct, via module construction, from '
+            '1..8 threads, cold and warm cache): bit equality with the reference package, symmetry / PR / '
+            'orthonormality / reversal identities, equality with the bytes on disk, idempotence, read-only '
+            'cached arrays. The finite table space is enumerated completely.', '5/C18'),
     'C10': ('differential runtime monitor vs pywt.waverec/waverec2 on one-hot coefficient batches, None-level metamorphic check',
             'Every observed DWT1DInverse/DWTInverse call on arbitrary (not in range) pyramids is compared with '
             'PyWavelets; one-hot coefficient batches give the whole synthesis operator; None levels are '
